@@ -12,9 +12,10 @@
 //
 // Concretisation table (variant chosen by seed; all variants keep the abstract relations):
 //   name tokens   x,y | a,b | z  ->  req,db|count,bytes|zzz   Http,Rpc|Dur,Size|Q9   a,b|x1,y2|z
+//                                     req,prereq|cnt,cnt2|zz (one name a substring of another)
 //   name          <<p,s>> -> p SEP s, SEP in "_" "/" "-"        (no regex metacharacter)
 //   selectors     exact n -> the name; prefix p -> "p.*"; suffix s -> ".*s"; all -> "*"
-//   units         "" -> "", ms,By -> ms,By | s,{packets} | 1,kBy/s
+//   units         "" -> "", ms,By -> ms,By | s,{packets} | 1,kBy/s | k,kBy
 //   meters        A=(libA,1.0.0,S) B=(libA,2.0.0,S) C=(libC,1.0.0,"")  S="https://example.test/schema/1"
 //   view k        name "view<k>_out", description "view <k> description", unit argument "VIEWUNIT" (must
 //                 never show), aggregation enum, filter: none->default processor, k1->{"k1"}, empty->{}
@@ -37,17 +38,19 @@ struct Table
   std::string sep;
   explicit Table(Rng &rng)
   {
-    static const char *toks[3][5]  = {{"req", "db", "count", "bytes", "zzz"}, {"Http", "Rpc", "Dur", "Size", "Q9"},
-                                      {"a", "b", "x1", "y2", "z"}};
-    static const char *units[3][2] = {{"ms", "By"}, {"s", "{packets}"}, {"1", "kBy/s"}};
+    // (variant 3 makes one name a substring of another and one unit a prefix of the other: a
+    // selector that searches instead of matching, or compares prefixes, is then visible)
+    static const char *toks[4][5]  = {{"req", "db", "count", "bytes", "zzz"}, {"Http", "Rpc", "Dur", "Size", "Q9"},
+                                      {"a", "b", "x1", "y2", "z"}, {"req", "prereq", "cnt", "cnt2", "zz"}};
+    static const char *units[4][2] = {{"ms", "By"}, {"s", "{packets}"}, {"1", "kBy/s"}, {"k", "kBy"}};
     static const char *seps[3]     = {"_", "/", "-"};
-    int v                          = static_cast<int>(rng.below(3));
+    int v                          = static_cast<int>(rng.below(4));
     tok["x"]                       = toks[v][0];
     tok["y"]                       = toks[v][1];
     tok["a"]                       = toks[v][2];
     tok["b"]                       = toks[v][3];
     tok["z"]                       = toks[v][4];
-    int u                          = static_cast<int>(rng.below(3));
+    int u                          = static_cast<int>(rng.below(4));
     unit[""]                       = "";
     unit["ms"]                     = units[u][0];
     unit["By"]                     = units[u][1];
